@@ -413,6 +413,11 @@ func RunC1(rc *RunCtx, sc *C1) *C1Outcome {
 					return nil, fmt.Errorf("dial refused: %w", ErrSimRefused)
 				}
 				gen++
+				if gen > 1 {
+					cl.lock()
+					cl.rdl, cl.wdl = time.Time{}, time.Time{} // a fresh connection has no deadlines set
+					cl.unlock()
+				}
 				return &connGen{Conn: cl, gen: gen, cur: &gen, stale: &out.StaleIO}, nil
 			},
 		}
@@ -540,6 +545,7 @@ func RunC1(rc *RunCtx, sc *C1) *C1Outcome {
 				}
 			}
 			t1 := s.Now()
+			o.Start = t1
 			// follow-up calls get a fresh context: a deadline left over from the first call could fall on the follow-up's own
 			// timeout instant, and Go picks at random when both are ready in one select (not a tape decision)
 			o.Resp, o.Err = doer.Do(context.Background(), next.LibReq)
